@@ -1,6 +1,7 @@
 """C08, part "planck": Planck / Rayleigh-Jeans radiances, both brightness
 temperature inversions and the wavelength / wavenumber forms over a lattice of
-frequencies f and x = h f / (k T), x in [1e-6, 600].
+frequencies f and x = h f / (k T), x in [1e-6, 600], called with every
+scalar / array combination of (f, T) listed in MODES.
 
 Reference: B = 2 h f^3 / c^2 / expm1(x) in numpy.longdouble (64-bit mantissa),
 which has no cancellation at small x. Tolerances are conditioning-based: a
@@ -66,9 +67,12 @@ def lattice(tier):
     return out
 
 
+MODES = ("float", "float64", "int-T", "column", "row", "outer", "f-array",
+         "f-array-int-T")
+
+
 def shards(tier):
-    return [("planck", tier, mode) for mode in
-            ("float", "float64", "column", "row", "outer")]
+    return [("planck", tier, mode) for mode in MODES]
 
 
 def cases(shard):
@@ -78,6 +82,15 @@ def cases(shard):
         for f, Ts in lat.items():
             for T in Ts:
                 yield dict(part="planck", mode=mode, f=[f], T=[T])
+    elif mode == "int-T":            # Python int temperature
+        for f in lat:
+            for T in OUTER_T:
+                if in_domain(f, T):
+                    yield dict(part="planck", mode=mode, f=[f], T=[T])
+    elif mode in ("f-array", "f-array-int-T"):
+        # the whole (descending) frequency grid at one scalar temperature
+        for T in OUTER_T:
+            yield dict(part="planck", mode=mode, f=list(lat)[::-1], T=[T])
     elif mode == "column":           # scalar f, all its temperatures
         for f, Ts in lat.items():
             yield dict(part="planck", mode=mode, f=[f], T=Ts)
@@ -111,13 +124,24 @@ def nontrivial(case):
     return any(x <= 1e-3 or x >= 100 for x in xs)
 
 
+def as_int(T):
+    assert T == int(T)
+    return int(T)
+
+
 def arguments(case):
     mode = case["mode"]
     if mode == "float":
         return float(case["f"][0]), float(case["T"][0])
     if mode == "float64":
         return np.float64(case["f"][0]), np.float64(case["T"][0])
+    if mode == "int-T":
+        return float(case["f"][0]), as_int(case["T"][0])
     f, T = np.array(case["f"], dtype=float), np.array(case["T"], dtype=float)
+    if mode == "f-array":
+        return f, float(T[0])
+    if mode == "f-array-int-T":
+        return f, as_int(T[0])
     if mode == "column":
         return float(f[0]), T
     if mode == "row":
